@@ -72,7 +72,7 @@ func drawStreams(rt *rapid.T, maxStreams, big int) []streamPlan {
 // stream accepted on side x (the runner serialises the first frame of every stream an
 // endpoint opens, so streams are accepted in the order they were opened; layers that can
 // name streams ignore idx ordering and route by name).
-func runStreams(f failer, layer string, key uint64, plans []streamPlan, frameMax int, open [2]streamOpener, accept [2]streamAcceptor) streamsOutcome {
+func runStreams(f failer, env runEnv, layer string, key uint64, plans []streamPlan, frameMax int, open [2]streamOpener, accept [2]streamAcceptor) streamsOutcome {
 	out := streamsOutcome{rd: make([][2]readResult, len(plans)), wr: make([][2]int, len(plans))}
 	sk := &sink{}
 	done := make(chan struct{}, 4*len(plans)+4)
@@ -185,14 +185,14 @@ func runStreams(f failer, layer string, key uint64, plans []streamPlan, frameMax
 			}
 		})
 	}
-	ok := waitDone(done, workers)
+	ok := env.waitDone(done, workers)
 	mu.Lock()
 	for _, s := range all {
 		s.Close()
 	}
 	mu.Unlock()
 	if !ok {
-		f.Fatalf("%s: stream workers did not finish within a virtual hour (first failure so far: %q)", layer, sk.get())
+		env.stalled(f, "%s: stream workers did not finish within a virtual hour (first failure so far: %q)", layer, sk.get())
 	}
 	if msg := sk.get(); msg != "" {
 		f.Fatalf("%s", msg)
@@ -337,7 +337,7 @@ func TestL4YamuxStreams(t *testing.T) {
 			}
 			defer sb.Close()
 			o, a := muxedOpeners([2]network.MuxedConn{sa, sb})
-			out = runStreams(rt, c.Layer, c.Key, c.Streams, yamuxFrame, o, a)
+			out = runStreams(rt, bubbleEnv, c.Layer, c.Key, c.Streams, yamuxFrame, o, a)
 		})
 		labels, nontrivial := streamLabels(c.Streams, out, yamuxFrame)
 		if c.Cap > 0 {
